@@ -134,6 +134,10 @@ Definition do_uop (v : variant) (now : Z) (o : uop) (w : net) : net * list kc :=
   | UHttpStop srv => http_stop cx srv w
   | UProxyNew app node port => proxy_new cx app node port w
   | UProxyStop app => proxy_stop cx app w
+  | USocksNew srv node port version flags => socks_new cx srv node port version flags w
+  | USocksStop srv => socks_stop cx srv w
+  | USocksCounts srv => (w, [ret_line 20 srv (so_counts (get_socks w srv))])
+  | USocksBindStart srv port => (set_socks w srv (get_socks w srv <| so_bind_port := port |>), [])
   | UTcpReadRaw s bufsize h loop =>
       let (w, c0) := tcp_abort_recv s w in
       let (w, c1) := tcp_async_read_impl s [bufsize] (hid_raw h s bufsize loop) w in (w, c0 ++ c1)
@@ -159,7 +163,7 @@ Definition run_script_handler (v : variant) (now : Z) (h : Z) (args : list Z) (w
 Definition run_final (v : variant) (now : Z) (h : Z) (args : list Z) (w : net) : net * list kc :=
   if 0 <=? h then run_script_handler v now h args w
   else if (- h - 1000) mod 4 =? 2 then
-    let x := (- h - 1000) / 4 in app_callback (mkcx v now) (x / 64) (x mod 64) args w
+    let x := (- h - 1000) / 4 in app_callback2 (mkcx v now) (x / 64) (x mod 64) args w
   else (w, []).
 
 Definition wall_step (v : variant) (now : Z) (s : Z) (args : list Z) (w : net) : net * list kc :=
@@ -266,7 +270,7 @@ Definition net0 : net :=
   {| w_sinks := []; w_next_sink := 1000000; w_handlers := []; w_nodes := []; w_in := []; w_out := [];
      w_route := []; w_mtu := 1475; w_mtus := []; w_hosts := []; w_tcp_reg := []; w_udp_reg := [];
      w_next_port := 2000; w_tcps := []; w_udps := []; w_chans := []; w_next_chan := 0; w_rslv := [];
-     w_pcap := None; w_wall := []; w_rall := []; w_http := []; w_proxy := []; w_deadfwd := [] |}.
+     w_pcap := None; w_wall := []; w_rall := []; w_http := []; w_proxy := []; w_socks := []; w_deadfwd := [] |}.
 
 (* visible trace *)
 Inductive vline := VLog (now : Z) (tag : Z) (fields : list Z) | VRet (now i n : Z) | VRun (now ret : Z) | VOutOfFuel.
